@@ -14,6 +14,9 @@ CONSTANTS
  MaxPool = 2
  MaxProv = 0
  MaxSteps = 0
+ DefUrls = {"", "ud"}
+ DefExtras = {{}}
+ EnvUrls = {"", "ue"}
  RdKinds = {}
  RdPres = {}
  RdBodies = {}
@@ -23,4 +26,4 @@ CONSTANTS
 INIT Init
 NEXT Next
 VIEW View
-INVARIANTS CreatePrecedence ServiceNameAlwaysPresent CreateModelOK EnvExact EnvNoInvention EnvSomeReading
+INVARIANTS CreatePrecedence ServiceNameAlwaysPresent CreateModelOK CreateUrlChain EnvExact EnvNoInvention EnvSomeReading
